@@ -473,7 +473,8 @@ def run(world, rep, tier, only=None):
     # cluster: the update_refcount() call that follows add_l2_item() is given a refcount-block position different from
     # the cluster it counts (offset + cluster_size), unlike the call for a data cluster not yet written.
     oq = ef["output_qcow2_meta_data_blocks"]
-    l2 = [oq.block_end(b) for b in oq.blocks if oq.literal(b) and any(cc.get("fn") == "add_l2_item" for cc in T.calls(oq.literal(b)[0]))]
+    l2 = [oq.block_end(b) for b in oq.blocks if oq.literal(b) and
+          any(cc.get("fn") == "add_l2_item" for cc in T.calls(resolve_local(oq, oq.literal(b)[0])))]     # or its saved result
     rep.floor("C19.k add_l2_item test in output_qcow2_meta_data_blocks", len(l2), 1)
     ur = []
     for n in oq.nodes():
